@@ -25,13 +25,15 @@ RULE = (
     "  The existing operation may also be a user-defined count-dependent RowFilter or order-dependent Reordering "
     "(evaluated by the interpreter through their own definition); a report with first=None and done=True is "
     "evaluated as the documented 'simplifies away' case (second alone must equal existing-then-new); further "
-    "commutes are issued against the same relation object. "
+    "commutes are issued against the same relation object.  In 30 % of the cases the predicate objects of the pair "
+    "are first handed to another operation (a join whose fixed operand supplies some of their columns), as a user "
+    "reusing a predicate object would; equal predicates share one object within a case. "
 )
 ASSUMPTIONS = [
     "interpreter vmon/interp.py (full-row deduplication; witness rows satisfy the key functional dependency)",
     "commutators are specified for order-preserving engines, so lists are compared exactly",
 ]
-MIN_OBS = {"repeat_commutes_checked": 500, "witness_targets_evaluated": 2000, "refused": 100, "full": 300, "partial": 20}
+MIN_OBS = {"repeat_commutes_checked": 500, "predicates_used_elsewhere_first": 300, "witness_targets_evaluated": 2000, "refused": 100, "full": 300, "partial": 20}
 KINDS = ["calc", "dedup", "proj", "sel", "slice", "sort", "join"]
 CURRENT_KINDS = ["calc", "dedup", "proj", "sel", "slice", "sort", "cap", "rev"]  # incl. extension operations
 _state: dict = {}
@@ -137,7 +139,52 @@ def gen_case(rng, tier):
         e = gen_op(rng, rng.choice(["proj", "proj", "sel", "sort", "calc"]), ccols, tag_pool, fixed_pool)
         if e is not None:
             extra.append(e)
-    return {"tcols": tcols, "rows": rows, "current": cur, "new": new, "extra": extra}
+    case = {"tcols": tcols, "rows": rows, "current": cur, "new": new, "extra": extra}
+    if rng.random() < 0.3:
+        case["prior_use"] = rng.randint(0, 15)
+    return case
+
+
+_objs: dict = {}
+
+
+def _plib(ast):
+    """One library object per distinct predicate AST within a case (users build a predicate once and
+    hand the same object to several operations; per-object cached state is then shared)."""
+    k = repr(ast)
+    if k not in _objs:
+        _objs[k] = exprs.plib(ast)
+    return _objs[k]
+
+
+def prior_use(case, it, rng_bits):
+    """Before the commute, hand the predicate objects of the case to *another* operation, as a user
+    who reuses a predicate would: a join whose fixed operand supplies some of the predicate's
+    columns.  Reading that operation's attributes must leave the predicate object as it was."""
+    import lsst.daf.relation as R
+    from lsst.daf.relation import iteration
+
+    n = 0
+    for spec in (case["current"], case["new"]):
+        ast = spec[1] if spec[0] in ("sel", "join") else None
+        if ast is None:
+            continue
+        cols = sorted(exprs.pcols(ast))
+        if not cols:
+            continue
+        fixed_cols = [c for i, c in enumerate(cols) if (rng_bits >> i) & 1]
+        other_cols = [c for c in cols if c not in fixed_cols] or cols[:1]
+        fixed = it.make_leaf({T(c) for c in fixed_cols}, iteration.RowSequence([]), name="P0")
+        other = it.make_leaf({T(c) for c in other_cols}, iteration.RowSequence([]), name="P1")
+        try:
+            pj = R.Join(_plib(ast)).partial(fixed)
+            pj.columns_required  # noqa: B018
+            pj.apply(other)
+            R.Selection(_plib(ast)).columns_required  # noqa: B018
+        except R.RelationalAlgebraError:
+            pass
+        n += 1
+    return n
 
 
 def to_op(spec, fixed_engine):
@@ -152,7 +199,7 @@ def to_op(spec, fixed_engine):
     if k == "proj":
         return R.Projection(frozenset(T(c) for c in spec[1])), None
     if k == "sel":
-        return R.Selection(exprs.plib(spec[1])), None
+        return R.Selection(_plib(spec[1])), None
     if k == "slice":
         return R.Slice(spec[1], spec[2]), None
     if k == "sort":
@@ -169,7 +216,7 @@ def to_op(spec, fixed_engine):
         ftags = [T(c) for c in spec[3]]
         frows = [dict(zip(ftags, r)) for r in spec[4]]
         fixed = fixed_engine.make_leaf(set(ftags), iteration.RowSequence(frows), name="F")
-        j = R.Join(exprs.plib(spec[1]) if spec[1] is not None else R.Predicate.literal(True))
+        j = R.Join(_plib(spec[1]) if spec[1] is not None else R.Predicate.literal(True))
         return j.partial(fixed, is_lhs=spec[2]), (fixed, frows)
     raise AssertionError(spec)
 
@@ -188,6 +235,13 @@ def run_case(case):
     def leaf_rows(leaf):
         return registry[leaf.name]
 
+    _objs.clear()
+    if case.get("prior_use") is not None:
+        try:
+            out["counters"]["predicates_used_elsewhere_first"] = prior_use(case, it, case["prior_use"])
+        except Exception as exc:  # noqa: BLE001
+            out["violations"].append({"kind": "prior_use_raised", "detail": exc_str(exc)})
+            return out
     try:
         cur_op, cur_fixed = to_op(case["current"], it)
         if cur_fixed:
@@ -270,7 +324,7 @@ def run_case(case):
         out["violations"].extend(vs2)
         out["counters"]["repeat_commutes_checked"] = out["counters"].get("repeat_commutes_checked", 0) + 1
         mon.drain()
-    for e in structure.exprs_of(current.operation):
+    for e in list(structure.exprs_of(current.operation)) + list(structure.exprs_of(operation)):
         for node in interp.subexpressions(e):
             if set(node.columns_required) != interp.expr_refs(node):
                 out["violations"].append({"kind": "commute_corrupted_required_columns", "detail": f"{node} of {current} now declares {sorted(map(str, node.columns_required))} but references {sorted(map(str, interp.expr_refs(node)))}"})
